@@ -63,6 +63,7 @@ ALPHABET = [
     ['expr', None, ['call', 'gg', [X_LT(1)]]],
     ['expr', 'y', ['call', 'gg', [['var', 'y']]]],
     ['expr', 'y', ['call', 'hh', [num(0)]]],
+    ['jump', 'L2', ['var', 'eo']],          # a RAW conditional jump on an empty object (truthy in BareScript)
 ]
 CALLS = (10, 11, 12, 13)
 
@@ -80,7 +81,8 @@ def random_model(r):
         elif c < 0.52:
             body.append(['jump', r.choice(labels), None])
         elif c < 0.7:
-            body.append(['jump', r.choice(labels), ['bin', r.choice(['<', '>', '==']), ['var', r.choice(['x', 'y'])], num(r.randint(0, 4))]])
+            body.append(['jump', r.choice(labels), ['bin', r.choice(['<', '>', '==']), ['var', r.choice(['x', 'y'])], num(r.randint(0, 4))]]
+                        if r.random() < 0.85 else ['jump', r.choice(labels), ['var', r.choice(['eo', 'x', 'y'])]])
         elif c < 0.88:
             body.append(['label', r.choice(labels)])
         elif c < 0.93:
@@ -116,7 +118,7 @@ def canon_num(v):
 
 
 def ref_run(model, mx):
-    g = {'x': 0.0, 'y': None}
+    g = {'x': 0.0, 'y': None, 'eo': {}}
     for name in ('systemLog',):
         g[name] = refinterp.LibFn(name)
     ref = refinterp.Ref(g, mx, 'jump')
@@ -184,7 +186,7 @@ def run(tier):
     for _ in range(n_rand):
         models.append(('random', random_model(r)))
 
-    cases = [{'model': m, 'globals': {'x': interp.vflt(0.0), 'y': ['null']}, 'max': mx, 'twice': True} for _, m in models]
+    cases = [{'model': m, 'globals': {'x': interp.vflt(0.0), 'y': ['null'], 'eo': ['obj', 1, []]}, 'max': mx, 'twice': True} for _, m in models]
     impl = core.run_impl('run_script', cases)
 
     dist = {}
@@ -262,11 +264,11 @@ def run(tier):
     chk.coverage = {
         'evaluations': len(models),
         'distinct_nontrivial': len(nontrivial),
-        'rule': 'every statement list of length <= %d over the 14-statement alphabet (three one-level functions prepended when one is called), plus random models of '
+        'rule': 'every statement list of length <= %d over the 15-statement alphabet (three one-level functions prepended when one is called), plus random models of '
                 '5-40 statements with up to 3 functions; non-trivial = contains at least one jump and one label, distinct by statement list'
                 % maxlen,
         'exhaustive': True,
-        'exhaustive_part': f'all statement lists of length 0..{maxlen} over the alphabet ({sum(14**k for k in range(maxlen + 1))})',
+        'exhaustive_part': f'all statement lists of length 0..{maxlen} over the alphabet ({sum(15**k for k in range(maxlen + 1))})',
         'alphabet': [repr(a) for a in ALPHABET],
         'distribution': dist,
         'correspondence_cases': corr_n,
